@@ -310,7 +310,7 @@ impl<'a> MacroPass<'a> {
                         }
                     }
                     bump(self.counts, "R6.format_concat");
-                    Some(syn::parse_quote!(vx_concat(vec![#(#parts),*])))
+                    Some(syn::parse_quote!(vx_concat(&[#(#parts),*])))
                 } else {
                     // the text is opaque, but the arguments are still evaluated (by reference), so `?` / calls inside them stay
                     bump(self.counts, "R6.format_opaque");
@@ -353,7 +353,7 @@ impl<'a> MacroPass<'a> {
                     }
                 }
                 bump(self.counts, "R6.write_concat");
-                Some(syn::parse_quote!(#dst.vx_write_fmt(vx_concat(vec![#(#parts),*]))))
+                Some(syn::parse_quote!(#dst.vx_write_fmt(vx_concat(&[#(#parts),*]))))
             }
             "panic" | "unreachable" | "unimplemented" | "todo" => {
                 if self.cfg.panic == "allow" {
@@ -651,7 +651,8 @@ impl<'a> VisitMut for StringPass<'a> {
                 }
                 if ok {
                     if let Some(c) = chain {
-                        *e = syn::parse_quote!({ let __m = #scrut; #c });
+                        // `match E { __m => chain }` keeps the temporaries of E alive for the whole chain, like the original match
+                        *e = syn::parse_quote!(match #scrut { __m => #c });
                         bump(self.counts, "R5b.match_str_to_if");
                         // literals inside the generated vx_s(..) stay; visit bodies
                         visit_mut::visit_expr_mut(self, e);
